@@ -229,7 +229,12 @@ class Split(LenaSplit):
         self._copy_buf = bool(copy_buf)
 
         if bufsize is not None:
-            if bufsize != int(bufsize) or bufsize < 1:
+            try:
+                is_natural = (bufsize == int(bufsize) and bufsize >= 1)
+            except (TypeError, ValueError):
+                # bufsize is not a number
+                is_natural = False
+            if not is_natural:
                 raise exceptions.LenaValueError(
                     "bufsize should be a natural number "
                     "or None, {} provided".format(bufsize)
